@@ -173,7 +173,11 @@ class CleanView:
                 raise Unsupported(f"clean_values.get({key!r})")
             default = args[1] if len(args) > 1 else None
             if default is None:
-                raise Unsupported("clean_values.get without a numeric default")
+                # dict.get(key): None unless the raw values were saved
+                from .values import SOpt
+
+                yield st_, SOpt(z3.Not(cs.get("clean", self.i)), SFloat(cs.get(self.KEYS[key], self.i)))
+                return
             t = z3.If(cs.get("clean", self.i), cs.get(self.KEYS[key], self.i), to_real_term(default))
             yield st_, SFloat(t)
 
